@@ -38,6 +38,19 @@ CLAIMED = {
         note='bounds: 1-3 tags, names 1-2 bytes over {A,B}, contents <=3 bytes over {A,B,LF,CR}, lines <=6 bytes over {A,B,x}; HashMap modelled as '
              'association list with every iteration order; whole-file tag paths (capture, EOF error) are covered by C01',
         technique='symbolic execution of rustc MIR + SMT (z3, cvc5 cross-check), native replay'),
+    'C12': dict(
+        text='Bounded symbolic model checking of the real code: (1) get_line_ending / get_line_ending_from_buf from MIR equal "terminator of '
+             'the first line" for every buffer within the bound, including first lines longer than the 8 KiB reader buffer; (2) real '
+             '`preprocess` on sources mixing LF/CRLF per line, in included files, command output and stored tag content, and on stale '
+             'generated files: every byte of the output / temp file is checked by the solver against the first-line ending.',
+        ref='DESIGN.md 5 (C12)', note='bounds in evidence; D1 (CR only before LF); FS/process contract models',
+        technique='symbolic execution of rustc MIR + SMT (z3, cvc5 cross-check), native replay'),
+    'C16': dict(
+        text='Bounded symbolic model checking of the real code: (a) every source of symbolic lines that G1 classifies as ordinary text is '
+             'reproduced line for line by the real `preprocess`; (b) texts made of directive look-alike tokens and symbolic bytes, escaped '
+             'with write, come out exactly, also with a stored tag whose name occurs in the text.',
+        ref='DESIGN.md 5 (C16)', note='bounds in evidence; escaped text has no leading blank on the first line / no trailing blanks',
+        technique='symbolic execution of rustc MIR + SMT (z3, cvc5 cross-check), native replay'),
 }
 
 PENDING_REASON = 'check not built yet in this revision (under construction, see DESIGN.md 9); nothing is claimed'
